@@ -47,7 +47,8 @@ func init() {
 		lhOverlayBack[a] = k
 	}
 	u := map[int]string{1: "192.0.2.1", 2: "192.0.2.2", 3: "2001:db8:1::3", 4: "10.128.7.7", 5: "fd00:80::77", 6: "203.0.113.9",
-		7: "198.51.100.9", 8: "2001:db8:dead::8", 9: "192.0.2.66", 40: "192.0.2.5", 41: "10.128.7.5", 42: "203.0.113.5", 43: "198.51.100.5"}
+		7: "198.51.100.9", 8: "2001:db8:dead::8", 9: "192.0.2.66", 40: "192.0.2.5", 41: "10.128.7.5", 42: "203.0.113.5", 43: "198.51.100.5",
+		44: "2001:db8:beef::9", 45: "192.0.2.200", 46: "2001:db8:cafe::9"}
 	for i := 11; i <= 22; i++ {
 		u[i] = fmt.Sprintf("192.0.2.%d", 100+i)
 	}
@@ -64,8 +65,16 @@ func init() {
 // the harness' own classification of underlay addresses (prefix arithmetic, not the code's allow list)
 var lhMyNets = []netip.Prefix{netip.MustParsePrefix("10.128.0.0/16"), netip.MustParsePrefix("fd00:80::/64")}
 var lhDeniedGlobal = []netip.Prefix{netip.MustParsePrefix("203.0.113.0/24"), netip.MustParsePrefix("2001:db8:dead::/48")}
-var lhDeniedRangeInside = netip.MustParsePrefix("10.128.1.0/24")
-var lhDeniedRangeOutside = netip.MustParsePrefix("198.51.100.0/24")
+
+// remote_allow_ranges: overlay range -> underlay prefixes denied for peers inside it.  The lighthouses sit in the second
+// range, the peers P1/P3 in the first: the sender of a message and the peer it is about fall under different lists.
+var lhDeniedRanges = []struct {
+	inside netip.Prefix
+	denied []netip.Prefix
+}{
+	{netip.MustParsePrefix("10.128.1.0/24"), []netip.Prefix{netip.MustParsePrefix("198.51.100.0/24"), netip.MustParsePrefix("2001:db8:beef::/48")}},
+	{netip.MustParsePrefix("10.128.0.0/24"), []netip.Prefix{netip.MustParsePrefix("192.0.2.200/32"), netip.MustParsePrefix("2001:db8:cafe::/48")}},
+}
 
 func lhClass(peer netip.Addr, a netip.Addr) string {
 	for _, p := range lhMyNets {
@@ -78,8 +87,14 @@ func lhClass(peer netip.Addr, a netip.Addr) string {
 			return "deniedGlobal"
 		}
 	}
-	if peer.IsValid() && lhDeniedRangeInside.Contains(peer) && lhDeniedRangeOutside.Contains(a) {
-		return "deniedPeer"
+	for _, r := range lhDeniedRanges {
+		if peer.IsValid() && r.inside.Contains(peer) {
+			for _, d := range r.denied {
+				if d.Contains(a) {
+					return "deniedPeer"
+				}
+			}
+		}
 	}
 	return "ok"
 }
@@ -339,8 +354,10 @@ func lhNewNode(t testing.TB, cfg lhNodeCfg) *lhNode {
 		hosts = append(hosts, lhOverlay[h].String())
 	}
 	lhc := map[string]any{"am_lighthouse": cfg.Am, "hosts": hosts,
-		"remote_allow_list":   map[string]any{"203.0.113.0/24": false, "2001:db8:dead::/48": false},
-		"remote_allow_ranges": map[string]any{"10.128.1.0/24": map[string]any{"198.51.100.0/24": false}},
+		"remote_allow_list": map[string]any{"203.0.113.0/24": false, "2001:db8:dead::/48": false},
+		"remote_allow_ranges": map[string]any{
+			"10.128.1.0/24": map[string]any{"198.51.100.0/24": false, "2001:db8:beef::/48": false},
+			"10.128.0.0/24": map[string]any{"192.0.2.200/32": false, "2001:db8:cafe::/48": false}},
 	}
 	if cfg.C36 {
 		lhc["calculated_remotes"] = map[string]any{"10.128.1.0/24": []any{
